@@ -236,7 +236,7 @@ func Verif_C14_filter() {
 }
 
 // Verif_C14_invalid: one invalid element (unknown input, unknown key, keyword on subtag, bad regex,
-// malformed or unknown annotation) placed anywhere in a two-line filter: an error is returned
+// malformed or unknown annotation - alone or after a valid one) placed anywhere in a two-line filter: an error is returned
 // whenever the element is examined for some node, and never otherwise.
 func Verif_C14_invalid() {
 	w := &c14World{props: map[*dialer.Dialer]*dialer.Property{}, regexID: map[*regexp2.Regexp]uint64{}, patID: map[string]uint64{"p0": 1, "pbad": 3}, badPat: map[string]bool{"pbad": true}}
@@ -253,7 +253,7 @@ func Verif_C14_invalid() {
 	f0 := &config_parser.Function{Name: FilterInput_Name, Not: not0, Params: []*config_parser.Param{{Val: v0}}}
 	f1 := &config_parser.Function{Name: FilterInput_Name, Params: []*config_parser.Param{{Val: v1}}}
 	annos := [][]*config_parser.Param{nil, nil}
-	kind := vs.Choice("invalid", 6)
+	kind := vs.Choice("invalid", 8)
 	examined := false
 	hit0 := (name == v0) != not0
 	hit1first := name == v1
@@ -277,6 +277,12 @@ func Verif_C14_invalid() {
 	case 5: // unknown annotation on line 0
 		annos[0] = []*config_parser.Param{{Key: "weight", Val: "1"}}
 		examined = hit0
+	case 6: // unknown annotation after a valid one on line 0
+		annos[0] = []*config_parser.Param{{Key: dialer.AnnotationKey_AddLatency, Val: "100ms"}, {Key: "weight", Val: "1"}}
+		examined = hit0
+	case 7: // malformed annotation after a valid one on line 1
+		annos[1] = []*config_parser.Param{{Key: dialer.AnnotationKey_AddLatency, Val: "-500ms"}, {Key: dialer.AnnotationKey_AddLatency, Val: "soon"}}
+		examined = !hit0 && hit1first
 	}
 	_, _, err := set.FilterAndAnnotate([][]*config_parser.Function{{f0}, {f1}}, annos)
 	vs.Assert("invalid element examined <=> configuration error", (err != nil) == examined)
